@@ -13,6 +13,7 @@ CONSTANTS
   MaxSpur = 1
   Endings = {}
   SeiSet = {"never"}
+  RecordSched = FALSE
   Dev = {}
 VIEW view
 CONSTRAINT Proviso
